@@ -27,6 +27,17 @@ Definition check_line_accept (c : line_case) : bool :=
   | _, _ => false
   end.
 
+(* only the kind of outcome is compared (level 0: what is written for unvalidated input is not modelled) *)
+Definition check_line_kind (c : line_case) : bool :=
+  let '(vl, ver, s, expect, ft, jt) := c in
+  let O := table_oracle ft jt in
+  match parse_line O vl ver s, expect with
+  | Ok _, Ok _ => true
+  | Err (G _), Err (G _) => true
+  | Err e, Err f => exn_eqb e f
+  | _, _ => false
+  end.
+
 Definition show_line (c : line_case) : string :=
   let '(vl, ver, s, expect, ft, jt) := c in
   let O := table_oracle ft jt in
